@@ -94,6 +94,7 @@ def run(ctx):
 
     # ---------------------------------------------------------------- coverage
     per_stream, outcomes, feats, nest, layout, art = {}, {}, {}, {}, {}, {}
+    arity, arity_ctx, arity_builtins = {}, {}, set()
     for r in R:
         _, stream, idx, outs, tag = (r + [""] * 5)[:5]
         per_stream[stream] = per_stream.get(stream, 0) + 1
@@ -117,16 +118,27 @@ def run(ctx):
         elif "artifact" in stream:
             c = tag.split(" ")[0] if tag else "?"
             art[c] = art.get(c, 0) + 1
+        elif stream == "call-arity" and tag:
+            # tag: "<callee kind> <label…> declared=N given=K args=<fill>/K ctx=<context>"
+            kv = dict(x.split("=", 1) for x in tag.split(" ") if "=" in x)
+            kind = tag.split(" ")[0]
+            rel = "given=declared" if kv.get("declared") == kv.get("given") else ("given=0" if kv.get("given") == "0" else
+                  ("given<declared" if int(kv.get("given", 0)) < int(kv.get("declared", 0)) else "given>declared"))
+            a = arity.setdefault(kind, {})
+            a[rel] = a.get(rel, 0) + 1
+            arity_ctx[kv.get("ctx", "?")] = arity_ctx.get(kv.get("ctx", "?"), 0) + 1
+            if kind in ("builtin", "builtin-method", "builtin-trait-method"):
+                arity_builtins.add(" ".join(tag.split(" ")[1:]).split(" declared=")[0])
     n_cases = len(R) + len(TIE) + len([r for r in F if r[3] in ("hang", "abort")])
     genok = outcomes.get("gen-ok", {})
     accepted = genok.get("compile:ok", 0)
     samples = [{"stream": r[1], "index": int(r[2]), "tag": vlib.unesc(r[3])[:200], "input": vlib.unesc(r[4])[:1200]} for r in S[:40]
-               if r[1] in ("gen-ok", "gen-ill", "layout", "mut-tokens", "artifact")][:5]
+               if r[1] in ("gen-ok", "gen-ill", "layout", "mut-tokens", "artifact", "call-arity")][:6]
     distinct = set()
     for r in R:
         if r[1] in ("gen-ok", "gen-ill", "progen") and "compile:err:parser" not in r[3]:
             distinct.add((r[1], r[2]))
-        elif r[1] in ("nest", "layout", "artifact", "known-artifact-core-ir", "occurs"):
+        elif r[1] in ("nest", "layout", "artifact", "known-artifact-core-ir", "occurs", "call-arity"):
             distinct.add((r[1], r[4]))
     cov = {
         "evaluations": n_cases, "distinct_nontrivial": len(distinct),
@@ -145,6 +157,15 @@ def run(ctx):
                           "gen_ill_with_occurs_check_diagnostic": outcomes.get("gen-ill", {}).get("compile:occurs-check-diagnostic", 0)},
         "generated_programs_accepted": {"accepted": accepted, "of": per_stream.get("gen-ok", 0)},
         "generator_features_used_in_n_programs": feats, "nesting_forms_max_depth": nest, "layout_features": layout, "artifact_mutations": art,
+        "call_arity_catalogue": {
+            "what": "deterministic catalogue (harness/src/arity.rs): callee kinds × argument counts 0..declared+2 (three ways of filling the arguments) × "
+                    "call contexts; the builtin callees and their parameter lists are read from the real initial environment at run time; every text goes "
+                    "through parse, compile, check_package, build_package, link_cores (when build succeeds) and the three editor queries",
+            "cases": per_stream.get("call-arity", 0),
+            "builtin_callees_from_the_real_environment": len(arity_builtins),
+            "cases_per_callee_kind_and_arity_relation": arity, "cases_per_context": arity_ctx,
+            "outcomes": outcomes.get("call-arity", {}),
+        },
         "chunks_abandoned": len(ABANDONED),
         "findings_by_signature": [{"signature": g["sig"], "hits": g["n"]} for g in groups.values()],
         "tie": {"op_sequences": n_tie, "equal": n_tie_eq, "samples": tie_samples},
@@ -153,7 +174,8 @@ def run(ctx):
         "what_is_proved": "peek_stuck_eof, stuck_reported_once, loop_terminates, dispatch_progress, file_consumes_all, expect_keeps_recovery_token, "
                           "exprFirst_rejects_eof, error_range_is_token_range (+ StepOK closure lemmas for every primitive)",
         "what_is_searched": "panic / abort / stack overflow / hang / Err without diagnostic / diagnostic range outside the text, over random and mutated texts, "
-                            "generated well- and ill-typed programs, nesting to depth 200, package layouts, altered artefacts",
+                            "generated well- and ill-typed programs, nesting to depth 200, package layouts, altered artefacts, and the call-arity catalogue "
+                            "(every callee kind incl. every builtin of the real initial environment × every argument count × every call context, through every entry point incl. the queries)",
     }
     ctx.assumptions += [
         "item parsers are built from the modelled primitives only (StepOK is closed under composition; the real item parsers are not modelled one by one)",
@@ -164,5 +186,5 @@ def run(ctx):
     ]
     tb = ["Lean 4 kernel", "axioms: " + ",".join(ctx.proof["axioms"] or ["none"]),
           "tools/extract.py extract_parser_consts / extract_recovery (regex over parser.rs, expr.rs, file.rs)",
-          "harness/src/c04.rs, c04gen.rs, crash.rs, jsonspan.rs", "tools/props/c04.py"]
+          "harness/src/c04.rs, c04gen.rs, arity.rs, crash.rs, jsonspan.rs", "tools/props/c04.py"]
     return ctx.finish(level, cov, tb, "lake build GomlVerif.Props.C04 && #print axioms; gv c04 (child processes) | gomlmodel c04")
